@@ -10,6 +10,7 @@
 """
 This module contains classes for XML Schema elements, complex types and model groups.
 """
+import threading
 import warnings
 from copy import copy as _copy
 from decimal import Decimal
@@ -55,6 +56,8 @@ if TYPE_CHECKING:
     from .groups import XsdGroup  # noqa: F401
 
 DataBindingType = Union[type['dataobjects.DataElement'], 'dataobjects.DataBindingMeta']
+
+_binding_lock = threading.Lock()  # serializes the lazy creation of binding classes
 
 
 class XsdElement(XsdComponent, ParticleMixin,
@@ -495,11 +498,14 @@ class XsdElement(XsdComponent, ParticleMixin,
         :param attrs: attribute and method definitions for the binding class body.
         """
         if self.binding is None or replace_existing:
-            if not bases:
-                bases = (dataobjects.DataElement,)
-            attrs['xsd_element'] = self
-            class_name = '{}Binding'.format(self.local_name.title().replace('_', ''))
-            self.binding = dataobjects.DataBindingMeta(class_name, bases, attrs)
+            with _binding_lock:
+                # Re-check: another thread can have created the binding class meanwhile
+                if self.binding is None or replace_existing:
+                    if not bases:
+                        bases = (dataobjects.DataElement,)
+                    attrs['xsd_element'] = self
+                    class_name = '{}Binding'.format(self.local_name.title().replace('_', ''))
+                    self.binding = dataobjects.DataBindingMeta(class_name, bases, attrs)
 
         return self.binding
 
